@@ -16,16 +16,16 @@ CONSTANT Tier
 VARIABLES kind, desc
 mwvars == <<wvars, kind, desc>>
 
-Operands == {"x", "IN", "FROM", "WITH", "MATCH", ""}
+Operands == {"x", "IN", "FROM", "WITH", "MATCH", "", "x/", " x ", "X", "./x"}
 Vocab == SimpleKinds \cup {"MATCH", "IN", "WITH", "MATERIALS", "PRODUCTS", "FROM", "x", "match", "Materials"}
 
 ValidRules ==
   {<<k, p>> : k \in {"CREATE", "DISALLOW"}, p \in Operands}
   \cup {<<"MATCH", p>> \o s \o <<"WITH", w>> \o d \o <<"FROM", f>> :
           p \in {"x", "IN", "WITH"}, w \in {"MATERIALS", "PRODUCTS"},
-          s \in {<< >>, <<"IN", "x">>, <<"IN", "WITH">>, <<"IN", "IN">>},
-          d \in {<< >>, <<"IN", "x">>, <<"IN", "FROM">>},
-          f \in {"x", "FROM", ""}}
+          s \in {<< >>, <<"IN", "x">>, <<"IN", "WITH">>, <<"IN", "IN">>, <<"IN", "x/">>, <<"IN", " x ">>},
+          d \in {<< >>, <<"IN", "x">>, <<"IN", "FROM">>, <<"IN", "d//">>, <<"IN", "/">>},
+          f \in {"x", "FROM", "", "x/", "X"}}
 
 DeleteAt(s, i) == SubSeq(s, 1, i - 1) \o SubSeq(s, i + 1, Len(s))
 InsertBefore(s, i, e) == SubSeq(s, 1, i - 1) \o <<e>> \o SubSeq(s, i, Len(s))
@@ -50,7 +50,7 @@ LinkDescs ==
    retval : {"absent", "zero"}, stdout : {"absent", "present"}, sigs : {0},
    reserved : {"stdout", "stderr", "return-value"}]
 LayoutDescs ==
-  [steps : {0, 1, 2}, rules : {"none", "simple", "match_full", "match_nosrc", "match_nodst", "match_bare", "all"},
+  [steps : {0, 1, 2}, rules : {"none", "simple", "match_full", "match_nosrc", "match_nodst", "match_bare", "match_slash", "all"},
    thr : {"zero", "one", "max"}, keys : {"none", "ed", "rsa", "ec", "all"}, insp : {0, 1},
    str : IF Tier = "quick" THEN {<< >>, <<"Q">>, <<"U">>} ELSE StrClasses,
    expires : {"epoch", "now", "far", "yearend"}, sigs : {0, 1}]
